@@ -592,13 +592,20 @@ def run_preempt(case):
         t.join(WAIT)
         if t.is_alive():
             raise core.Infra('victim thread did not end')
-        n = 0
-        while b.exec.waiting() and n < 50:
-            r = b.do({'op': 'applyTask', 'i': 0})
-            if 'task_raised' in r:
-                res.setdefault('task_raised', []).append(r['task_raised'])
-            n += 1
-        out.update({'victim': res.get('victim'), 'intruder': res.get('intruder'),
+        def drain():
+            n = 0
+            while b.exec.waiting() and n < 50:
+                r = b.do({'op': 'applyTask', 'i': 0})
+                if 'task_raised' in r:
+                    res.setdefault('task_raised', []).append(r['task_raised'])
+                n += 1
+        drain()
+        for op in case.get('then', []):          # follow-up calls, made one after the other
+            r = b.do(op)
+            if 'raised' in r:
+                res.setdefault('then_raised', []).append(r['raised'])
+        drain()
+        out.update({'then_raised': res.get('then_raised', []), 'victim': res.get('victim'), 'intruder': res.get('intruder'),
                     'task_raised': res.get('task_raised', []), 'final': b.snapshot(), 'degraded': list(b.degraded)})
         return out
     except core.Infra:
